@@ -205,3 +205,11 @@ Proof.
   unfold frame_node, frame_children, cdata_nodes. rewrite C1, T1, A1. cbn [f_tag f_attrs app]. rewrite app_nil_r. reflexivity.
 Qed.
 End Doc.
+
+(* the embedded-document outcome in terms of wbxml_tree_from_wbxml on the payload (language not forced, the outer charset as meta) *)
+Lemma chars_node_embedded tbl lv' cs b tr : tree_from_wbxml tbl 0 cs lv' b = BOk tr ->
+  chars_node tbl (S lv') cs D_WBXML b = Some [TSub (wt_lang tr) (wt_charset tr) (wt_root tr)].
+Proof.
+  unfold tree_from_wbxml, build, chars_node. destruct (parse_with tbl 0 cs (S (length b)) b) as [evs'|pe|]; try discriminate.
+  destruct (build_from tbl lv' evs' st_init) as [st'|be|]; try discriminate. intros H; injection H as <-. reflexivity.
+Qed.
